@@ -534,13 +534,18 @@ def opBW (args obs : List String) : P String := do
     let o ← pOverflow o
     let as ← pList pInt as
     let bs ← pList pInt bs
-    if kind == "ff" && (bitwiseFxp .and x y o 0 0).isNone then
+    if (kind == "ff" || kind == "gg") && (bitwiseFxp .and x y o 0 0).isNone then
       pure (reply (isExc obs) (isExc obs) ["ERR"])
     else
       let (model, pats) ← if op == "inv" then
           pure (as.map (invertM x o), as.map (fun a => 2 ^ x.nword - 1 - upat x.nword a))
         else do
           let bo ← pBitOp op
+          if kind == "gg" then
+            -- a column of x against a row of y: the grid of all pairs, row-major
+            let l := as.flatMap (fun a => bs.map (fun b => (bitwiseM bo x o a b, bitop bo (upat x.nword a) (upat x.nword b))))
+            pure (l.map (·.1), l.map (·.2))
+          else
           match bcast (fun a b => (bitwiseM bo x o a b, bitop bo (upat x.nword a) (upat x.nword b))) as bs with
           | some l => pure (l.map (·.1), l.map (·.2))
           | none => throw "BW: shapes"
@@ -812,6 +817,12 @@ def opRD (args obs : List String) : P String := do
       | none => []
       | some 1 => if twoD then [r] else []
       | some _ => [c]
+    -- diagonal / trace: axis token "n" (main diagonal), "o<k>" (offset k, default axes), "w<k>" (offset k, axis1=1, axis2=0:
+    -- the diagonal of the transposed matrix, i.e. offset -k of this one)
+    let diagOf : List (List Int) → List Int := fun rs =>
+      if axis.startsWith "o" then diagOffL rs ((axis.drop 1).toInt?.getD 0)
+      else if axis.startsWith "w" then diagOffL rs (-((axis.drop 1).toInt?.getD 0))
+      else diagL rs
     let res : P (Fmt × List Nat × List Int) := match fn with
       | "sum" => pure (sumFmt x size, outShape1, lanes.map sumL)
       | "max" => pure (x, outShape1, lanes.map maxL)
@@ -837,8 +848,8 @@ def opRD (args obs : List String) : P String := do
         -- axis token "id": the identity permutation is passed as `axes` (nothing moves); "sw": axes=(1,0); "n": no `axes` argument
         if axis == "id" then pure (x, if twoD then [r, c] else [size], cs)
         else pure (x, if twoD then [c, r] else [size], if twoD then (transposeL rows).flatten else cs)
-      | "diagonal" => pure (x, [(diagL rows).length], diagL rows)
-      | "trace" => pure (sumFmt x (diagL rows).length, [], [sumL (diagL rows)])
+      | "diagonal" => pure (x, [(diagOf rows).length], diagOf rows)
+      | "trace" => pure (sumFmt x (diagOf rows).length, [], [sumL (diagOf rows)])
       | _ => throw s!"RD: fn {fn}"
     let (g, shape, ks) ← res
     let out := ks.map (ovf o g)
